@@ -77,7 +77,7 @@ Fixpoint udigits (fuel : nat) (n : N) (acc : str) : str :=
       if n / 10 =? 0 then acc' else udigits f (n / 10) acc'
   end.
 (* strconv.FormatUint(n, 10) *)
-Definition utoa (n : N) : str := udigits (S (N.size_nat n)) n [].
+Definition utoa (n : N) : str := udigits (S (N.to_nat (N.size n))) n [].
 (* strconv.Itoa / FormatInt(z, 10) *)
 Definition itoa (z : Z) : str :=
   if (z <? 0)%Z then 45 :: utoa (Z.to_N (- z)) else utoa (Z.to_N z).
